@@ -257,6 +257,27 @@ let () =
           (match cs with
            | None -> Printf.printf "%s P err\n" id
            | Some cs -> print_plan id (planChanges fx tx cs))
+        | ("sup", "E") ->
+          (* not a correspondence mode: is the case inside the domain of theorem C01_converges_rows ? *)
+          let fk = next_bool () in
+          let (_, a) = parse_xschema () in
+          let setup = Stdlib.List.concat_map (fun ((x : xtable), us) ->
+              let t = x.x_t in
+              SCreateTable ({ x with x_t = { t with t_idx = [] } }, us)
+              :: Stdlib.List.map (fun i -> SCreateIndex (t.t_name, i)) t.t_idx) a in
+          let d0 = { db_tables = []; db_fk = fk; db_tx = false } in
+          let nrows = next_int () in
+          let _ = times nrows (fun () ->
+              let _ = next_str () in let _ = next_int () in let nc = next_int () in
+              times nc (fun () -> let _ = next_str () in let _ = parse_value () in ())) in
+          let (_, b) = parse_xschema () in
+          let bx = Stdlib.List.map fst b in
+          (match exec_all d0 setup with
+           | Err _ -> Printf.printf "%s SUP setup-err\n" id
+           | Ok d1 ->
+             Printf.printf "%s SUP db=%s desired=%s compat=%s all=%s syntactic=%s feature=%s\n" id (b01 (db_ok_b d1))
+               (b01 (Stdlib.List.for_all desired_ok_b bx)) (b01 (compatible_b d1 bx)) (b01 (supported d1 bx))
+               (b01 (Stdlib.List.for_all desired_syntactic_b bx)) (b01 (in_feature_set d1 bx)))
         | ("engine", "E") | ("updown", "U") ->
           let fk = next_bool () in
           let (n1, a) = parse_xschema () in
